@@ -118,6 +118,39 @@ Definition cmd_scoped (np nw : Z) (c : cmd) : bool :=
   | _ => true
   end.
 
+(* ... and so does every VALUE expression the generator evaluates (witness hints, raise conditions, observed values) *)
+Fixpoint vscopedb (np nw : Z) (e : valexp) : bool :=
+  match e with
+  | VIn _ | VConst _ => true
+  | VWit v => var_okb np nw v
+  | VAdd a b | VSub a b | VMul a b | VDiv a b | VMod a b | VLand a b | VLor a b | VLxor a b | VShl a b | VShr a b =>
+      vscopedb np nw a && vscopedb np nw b
+  | VInv a | VModP a => vscopedb np nw a
+  | VLin l => lc_okb np nw l
+  | VIte c a b => bscopedb np nw c && vscopedb np nw a && vscopedb np nw b
+  | VB2Z b => bscopedb np nw b
+  end
+with bscopedb (np nw : Z) (b : bexp) : bool :=
+  match b with
+  | BTrue | BFalse | BIgn0 => true
+  | BNot a => bscopedb np nw a
+  | BAnd a b | BOr a b => bscopedb np nw a && bscopedb np nw b
+  | BEq a b | BLt a b | BLe a b => vscopedb np nw a && vscopedb np nw b
+  | BBitLenLe a _ => vscopedb np nw a
+  end.
+Definition slc_scoped (np nw : Z) (x : slc) : bool := vscopedb np nw (sval x) && lc_okb np nw (wire x).
+Definition triple_scoped (np nw : Z) (t : gtriple) : bool :=
+  match g_guard t with Some g => slc_scoped np nw g | None => true end && bscopedb np nw (g_ignore t) && slc_scoped np nw (g_one t).
+(* the complete scope check of one command *)
+Definition cmd_vscoped (np nw : Z) (c : cmd) : bool :=
+  match c with
+  | CAlloc _ h => vscopedb np nw h
+  | CEmit a b y => slc_scoped np nw a && slc_scoped np nw b && slc_scoped np nw y
+  | CRaiseIf b _ _ => bscopedb np nw b
+  | COut _ v l => vscopedb np nw v && lc_okb np nw l
+  | COutLC _ x => slc_scoped np nw x
+  end.
+
 Section Interp.
 Variable ins : list Z.
 Variable ign0 : bool.
@@ -158,7 +191,7 @@ End Interp.
 End WithP.
 Arguments sval {p} _. Arguments wire {p} _. Arguments oid {p} _. Arguments good {p} _.
 Arguments g_guard {p} _. Arguments g_ignore {p} _. Arguments g_one {p} _.
-Arguments cmd_scoped {p} _ _ _.
+Arguments cmd_scoped {p} _ _ _. Arguments slc_scoped {p} _ _ _. Arguments triple_scoped {p} _ _ _. Arguments cmd_vscoped {p} _ _ _.
 Arguments CAlloc {p} _ _. Arguments CEmit {p} _ _ _. Arguments CRaiseIf {p} _ _ _. Arguments COut {p} _ _ _. Arguments COutLC {p} _ _.
 
 (* ---- digest of a trace: what the correspondence compares (see harness/impl/digest.py) ----
